@@ -57,6 +57,14 @@ def primitive(f_raw):
             parents = tuple(box._node for _, box in boxed_args)
             argnums = tuple(argnum for argnum, _ in boxed_args)
             ans = f_wrapped(*argvals, **kwargs)
+            if isbox(ans) and ans._trace >= trace:
+                # The arguments were unboxed at this trace, so the result can only be boxed at it (or
+                # above) if the function picked up a traced value from somewhere else - a closure or
+                # a global. Its dependence on that value would be lost.
+                raise TypeError(
+                    f"{getattr(f_raw, '__name__', f_raw)}: the function wrapped as a primitive uses a value that is "
+                    "being differentiated without receiving it as a positional argument"
+                )
             node = node_constructor(ans, f_wrapped, argvals, kwargs, argnums, parents)
             return new_box(ans, trace, node)
         else:
